@@ -33,6 +33,7 @@ from aiohomekit.controller.abstract import TransportType
 from aiohomekit.model import Accessories
 
 from harness.c20_entity import replay_entity, run_entity  # noqa: E402
+from harness.simnet import VLoop  # noqa: E402
 
 ID = "C20"
 RULE = ("pairing sets over all loaded transports (IP with/without Connection key, CoAP, BLE), unicode aliases, optional fields; for EVERY crash point of save_data (each recorded primitive "
@@ -45,15 +46,29 @@ RULE = ("pairing sets over all loaded transports (IP with/without Connection key
         "CharacteristicCacheFile handed to the top-level Controller (and, as a control, straight to the transport backend), the database populated through the pairing's own write-through paths "
         "(list_accessories_and_characteristics, async_populate_accessories_state, an mDNS announcement of a higher c#, restore_accessories_state, a BLE advertisement with a new state number), then a "
         "restart with a new cache object and a new Controller: c#, database, s# and broadcast key are read back, a foreign entry in the file survives; any exception on valid data is a violation. "
+        "histories of the numbers (stream cache-numbers; 1-3 lives of 1-6 ops on every transport, directed ones for each class plus random ones): state and configuration numbers that go up, stay, go DOWN "
+        "(late relay of an older advertisement, a counter that restarted), roll over (s# 65534, 65535, 1; BLE's one-byte c# 254, 255, 1; mDNS c# 65535 -> 1), jump and sit on boundaries; broadcast key "
+        "set / cleared / replaced; through restore_accessories_state, BLE advertisements of any s#/c# (BleController._device_detected) with the accessory out of range (connection attempts fail) or in range, "
+        "mDNS announcements of any c#/s#, list/populate, and - accessory in range - the BLE pairing's own session paths against the harness's HAP-BLE accessory behind a GATT link stand-in "
+        "(async_populate_accessories_state with/without force = value reads, subscribe = broadcast-key generation, GATT notifications = the library's own state-number bookkeeping incl. its roll-over and key "
+        "regeneration, link drops -> reconnect -> re-subscription, catch-up poll after an advertisement = GetAllParams); the process ends by shutdown() or is killed (its tasks die); oracle: after the restart the "
+        "pairing holds exactly what the live pairing held when the process ended (c#, s#, key, database with values) and - where the live pairing had taken them over - the accessory's own counter / the advertised "
+        "number / the key the accessory generated. "
         "model streams: random characteristic dictionaries (every optional key absent / null / falsy / set, types in and outside the metadata table in every spelling), whole accessories (service iids 0 / duplicated, links absent / empty / dangling / 0), "
         "every repository fixture, histories of CharacteristicCacheFile operations with restarts and lost/corrupted files - implementation vs Lean model attribute by attribute; for dictionaries inside the theorem's hypotheses the restart oracle is checked on the implementation. "
-        "non-trivial = distinct (pairing-set shape, crash point) / (fixture, check) / prefix length / (transport kinds, writer, lives) / (initial cache state, transport, construction, op kinds)")
+        "non-trivial = distinct (pairing-set shape, crash point) / (fixture, check) / prefix length / (transport kinds, writer, lives) / (initial cache state, transport, construction, op kinds) / "
+        "(initial cache state, transport, construction, radio, way the process ends, per life the op kinds with the direction each number moved)")
 TRUSTED = ["POSIX rename atomicity of os.replace for a process crash", "orjson/commentjson parse what they wrote; a strict prefix of an object's encoding does not parse (checked exhaustively on this run's files)"]
 ASSUMPTIONS = ["file effects are observed by replacing open/os.replace/os.fsync in the namespace of aiohomekit.controller.controller with a recording virtual file system; "
                "crash states are materialised in a temporary directory outside /repo and /verif",
                "transports are instantiated without starting their scanners/browsers (crash-point streams); in the whole-life streams the Controller is entered with `async with` and starts its backends "
                "against a stub zeroconf browser and a stub BLE scanner; mDNS announcements and BLE advertisements are injected at the backend's callback (_async_handle_loaded_service_info / _device_detected); "
                "an IP/CoAP pairing's connection object is replaced by a stub that is 'connected' and answers the accessory-database request",
+               "BLE radio (stream cache-numbers): bleak's establish_connection is replaced - 'out of range' fails every attempt with BleakError, 'in range' hands out a GATT link to the harness's own accessory "
+               "(HAP-BLE PDUs under the session's ChaCha20-Poly1305 keys: protocol configuration = generate broadcast key / get all parameters, characteristic read, characteristic configuration, notifications); "
+               "the pair-verify exchange is replaced by its result (session keys + the HKDF of the shared secret, computed by the harness's own HKDF-SHA512); the link has no GATT attribute table, so the "
+               "in-range accessory always advertises the configuration number the pairing holds (configuration-number changes are explored with the accessory out of range and over mDNS); "
+               "each trial of that stream runs on its own virtual-time event loop, killed tasks = process death",
                "accessory-database round trip: modelled (Model/EntityMap.lean: Characteristic construction from a dictionary incl. the metadata-table defaults, the constructor's default value, set_value, "
                "to_accessory_and_service_list, services and links, the write-through cache) and proved (C20_char_roundtrip/_restart/_reachable_roundtrip, C20_accessory_roundtrip, C20_cache_*); tied by the "
                "streams em-char / em-acc / em-cache of harness/c20_entity.py.  Outside the model: the JSON text layer (hkjson) and CPython dicts; cache-prefix behaviour is checked on the implementation"]
@@ -175,6 +190,7 @@ def run(ctx: Ctx, driver: Driver):
         cache_histories(ctx, rng, tmpdir)
         toplevel_restart(ctx, rng, loop, tmpdir)
         toplevel_cache(ctx, rng, loop, tmpdir)
+        cache_numbers(ctx, rng, tmpdir)
         run_entity(ctx, driver)
     finally:
         shutil.rmtree(tmpdir, ignore_errors=True)
@@ -400,8 +416,236 @@ def fake_zeroconf(browser_cls):
     return zc
 
 
+def _hkdf512(ikm, salt, info, n=32):
+    """HKDF-SHA512, one block (the harness's own; what pair-verify's `derive` computes from the shared secret)"""
+    import hashlib
+    import hmac
+    prk = hmac.new(salt, ikm, hashlib.sha512).digest()
+    return hmac.new(prk, info + b"\x01", hashlib.sha512).digest()[:n]
+
+
+def _tlv(t, v):
+    out = b""
+    for o in range(0, max(len(v), 1), 255):
+        out += bytes([t, len(v[o:o + 255])]) + v[o:o + 255]
+    return out
+
+
+def gsn_succ(n, top=65535):
+    """the counter after `n`: 16 bit (BLE c#: 8 bit), 0 is never used, so top rolls over to 1"""
+    return 1 if n is None or n >= top else n + 1
+
+
+class BleAccessory:
+    """the accessory behind the radio - the harness's own record of it: its global state number, the values it serves,
+    the broadcast key it generated last (HAP-BLE 7.4.7.3: derived from the session's shared secret, salt = the controller's LTPK)"""
+
+    INTS = {"uint8": ("<B", 0, 255), "uint16": ("<H", 0, 65535), "uint32": ("<I", 0, 2 ** 32 - 1), "uint64": ("<Q", 0, 2 ** 64 - 1), "int": ("<i", -2 ** 31, 2 ** 31 - 1)}
+
+    def __init__(self, rng, pd):
+        import collections
+        self.rng = rng
+        self.ltpk = bytes.fromhex(pd["iOSDeviceLTPK"])
+        self.adv_id = bytes.fromhex(pd["AccessoryPairingID"].replace(":", ""))
+        self.gsn = None
+        self.chars = {}
+        self.key = None
+        self.served = collections.Counter()
+
+    def set_db(self, db):
+        self.chars = {c["iid"]: c for a in db if a.get("aid") == 1 for s in a["services"] for c in s["characteristics"]}
+
+    def value_bytes(self, c):
+        fmt, cur, rng = c.get("format"), c.get("value"), self.rng
+        num = lambda v: isinstance(v, (int, float)) and not isinstance(v, bool)  # noqa: E731
+        try:
+            if fmt == "bool":
+                return struct.pack("<?", rng.random() < 0.5)
+            if fmt in self.INTS:
+                code, lo, hi = self.INTS[fmt]
+                cands = [int(v) for v in (c.get("valid-values") or [c.get("minValue"), c.get("maxValue"), cur]) if num(v) and int(v) == v and lo <= v <= hi]
+                return struct.pack(code, rng.choice(cands) if cands else 0)
+            if fmt == "float":
+                cands = [float(v) for v in (c.get("minValue"), c.get("maxValue"), cur) if num(v)]
+                return struct.pack("<f", rng.choice(cands) if cands else 0.0)
+            if fmt == "string":
+                s = cur if isinstance(cur, str) else ""
+                return rng.choice([s, s[:4] + "é"]).encode()
+        except (struct.error, OverflowError):
+            pass
+        return None
+
+    def pdu(self, link, opcode, iid, body):
+        """HAP-BLE procedures this accessory implements: protocol configuration (generate broadcast key / get all
+        parameters), characteristic read, characteristic configuration (broadcast on/off); everything else: unsupported"""
+        if opcode == 0x08:
+            out, i = b"", 0
+            while i + 2 <= len(body):
+                t, ln = body[i], body[i + 1]
+                i += 2 + ln
+                if t == 0x01:
+                    self.key = link.derive(self.ltpk, b"Broadcast-Encryption-Key")
+                    self.served["generate-broadcast-key"] += 1
+                elif t == 0x02:
+                    self.served["get-all-params"] += 1
+                    out = _tlv(1, struct.pack("<H", self.gsn or 1)) + _tlv(2, bytes([link.radio.config_num() & 0xFF])) + _tlv(3, self.adv_id) + (_tlv(4, self.key) if self.key else b"")
+            return 0, out
+        if opcode == 0x03:
+            c = self.chars.get(iid)
+            raw = self.value_bytes(c) if c is not None and "pr" in c.get("perms", []) else None
+            if raw is None:
+                self.served["read-refused"] += 1
+                return 6, b""
+            self.served["read"] += 1
+            return 0, _tlv(1, raw)
+        if opcode == 0x07:
+            self.served["char-config"] += 1
+            return 0, b""
+        self.served["unsupported-%02x" % opcode] += 1
+        return 1, b""
+
+
+class GattHandle:
+    properties = ("read", "write", "indicate")
+
+    def __init__(self, iid):
+        self.iid = iid
+        self.handle = iid
+        self.tx = []
+
+
+class BleLink:
+    """one GATT connection (what bleak's establish_connection hands out): writes to / reads from a characteristic reach
+    the accessory's HAP-BLE procedure layer through the session's transport security"""
+
+    def __init__(self, radio, on_disconnect):
+        from cryptography.hazmat.primitives.ciphers.aead import ChaCha20Poly1305
+        self.radio = radio
+        self.address = radio.address
+        self.is_connected = True
+        self.on_disconnect = on_disconnect
+        self.secret = bytes(radio.acc.rng.randrange(256) for _ in range(32))
+        self.k_c2a = _hkdf512(self.secret, b"Control-Salt", b"Control-Write-Encryption-Key")
+        self.k_a2c = _hkdf512(self.secret, b"Control-Salt", b"Control-Read-Encryption-Key")
+        self.dec, self.enc = ChaCha20Poly1305(self.k_c2a), ChaCha20Poly1305(self.k_a2c)
+        self.rx = self.tx = 0
+        self.handles = {}
+        self.notify = {}
+
+    def derive(self, salt, info):
+        return _hkdf512(self.secret, salt, info)
+
+    @property
+    def services(self):
+        self.radio.acc.served["gatt-discovery"] += 1
+        from bleak.exc import BleakError
+        raise BleakError("GATT service discovery failed")  # this stand-in has no attribute table (see ASSUMPTIONS)
+
+    def _check(self):
+        if not self.is_connected:
+            from bleak.exc import BleakError
+            raise BleakError("Not connected")
+
+    async def get_characteristic(self, service_uuid, characteristic_uuid, iid=None):
+        self._check()
+        return self.handles.setdefault(iid, GattHandle(iid))
+
+    def determine_fragment_size(self, overhead, handle):
+        return 244 - 3 - overhead
+
+    async def write_gatt_char(self, handle, data, response=None):
+        self._check()
+        plain = self.dec.decrypt(struct.pack("<4xQ", self.rx), bytes(data), b"")
+        self.rx += 1
+        if plain[0] & 0x80:
+            raise RuntimeError("radio stand-in: fragmented request")
+        _control, opcode, tid, iid = struct.unpack("<BBBH", plain[:5])
+        ln = struct.unpack("<H", plain[5:7])[0] if len(plain) >= 7 else 0
+        st, rb = self.radio.acc.pdu(self, opcode, iid, plain[7:7 + ln])
+        size = 244 - 3 - 16
+        handle.tx = [struct.pack("<BBBH", 0x02, tid, st, len(rb)) + rb[:size - 5]]
+        rest = rb[size - 5:]
+        for o in range(0, len(rest), size - 2):
+            handle.tx.append(struct.pack("<BB", 0x82, tid) + rest[o:o + size - 2])
+
+    async def read_gatt_char(self, handle):
+        self._check()
+        if not getattr(handle, "tx", None):
+            raise RuntimeError("radio stand-in: read without a pending response")
+        out = self.enc.encrypt(struct.pack("<4xQ", self.tx), handle.tx.pop(0), b"")
+        self.tx += 1
+        return bytearray(out)
+
+    async def start_notify(self, handle, callback):
+        self._check()
+        self.notify[handle.iid] = (handle, callback)
+        self.radio.acc.served["start-notify"] += 1
+
+    async def stop_notify(self, handle):
+        self.notify.pop(getattr(handle, "iid", None), None)
+
+    async def clear_cache(self):
+        return None
+
+    def drop(self):
+        """the link is lost (the accessory closed it / out of range for a moment)"""
+        if self.is_connected:
+            self.is_connected = False
+            self.notify = {}
+            if self.on_disconnect:
+                self.on_disconnect(self)
+
+    async def disconnect(self):
+        self.drop()
+
+
+class Radio:
+    """the bluetooth side of a process life.  'out-of-range': every connection attempt fails the way bleak reports an
+    unreachable device (advertisements relayed by a proxy still arrive); 'in-range': connection attempts succeed and
+    reach the harness's accessory"""
+
+    def __init__(self, mode="out-of-range", acc=None, pd=None):
+        self.mode = mode
+        self.acc = acc
+        self.address = pd["AccessoryAddress"] if pd is not None else "00:00:00:00:00:00"
+        self.links = []
+        self.attempts = 0
+        self.pairing = None
+
+    def config_num(self):
+        return max(self.pairing.config_num, 0) if self.pairing is not None else 1
+
+    async def establish(self, device, name, disconnected_callback=None, *a, **kw):
+        self.attempts += 1
+        if self.mode != "in-range" or self.acc is None:
+            from bleak.exc import BleakError
+            raise BleakError("Device with address %s was not found (out of range)" % self.address)
+        link = BleLink(self, disconnected_callback)
+        self.links.append(link)
+        self.acc.bcast_since_link = False
+        return link
+
+    @property
+    def link(self):
+        return self.links[-1] if self.links and self.links[-1].is_connected else None
+
+    def attach(self, pairing):
+        """the pair-verify exchange is not this property's business: it is replaced by its result, the session keys
+        and the key-derivation function of the shared secret (both sides know them)"""
+        from aiohomekit.controller.ble.key import DecryptionKey, EncryptionKey
+        self.pairing = pairing
+
+        async def verify():
+            link = pairing.client
+            pairing._encryption_key = EncryptionKey(link.k_c2a)
+            pairing._decryption_key = DecryptionKey(link.k_a2c)
+            pairing._session_id = link.secret[:8]
+            pairing._derive = link.derive
+        pairing._async_pair_verify = verify
+
+
 @contextlib.asynccontextmanager
-async def process_life(how, cache="default"):
+async def process_life(how, cache="default", radio=None):
     """one life of the process.  how = 'toplevel': Controller(zeroconf, char_cache) entered with `async with`, which
     registers every backend the installation supports (Controller.async_start); how = 'backend:<T>': the transport
     controller of T constructed directly with the cache.  cache='default' leaves the char_cache argument out."""
@@ -410,6 +654,7 @@ async def process_life(how, cache="default"):
         st.enter_context(mock.patch("aiohomekit.zeroconf.AsyncServiceBrowser", browser))
         if HAVE["BLE"]:
             st.enter_context(mock.patch("aiohomekit.controller.ble.controller.BleakScanner", ScannerStub))
+            st.enter_context(mock.patch("aiohomekit.controller.ble.pairing.establish_connection", (radio or Radio()).establish))
         zc = fake_zeroconf(browser)
         if how == "toplevel":
             c = Controller(async_zeroconf_instance=zc) if isinstance(cache, str) else Controller(async_zeroconf_instance=zc, char_cache=cache)
@@ -713,14 +958,30 @@ def ble_adv(did, gsn, cn):
     return d, a
 
 
+def ble_encrypted_notification(did, acc, iid):
+    """the accessory's encrypted broadcast of a characteristic value: [0x11, len, advertising id, ChaCha20-Poly1305(key,
+    nonce = GSN, aad = advertising id)(GSN | iid | 8 value bytes) with the tag cut to 4 bytes]"""
+    from cryptography.hazmat.primitives.ciphers.aead import ChaCha20Poly1305
+    raw = (acc.value_bytes(acc.chars[iid]) or b"")[:8].ljust(8, b"\0")
+    sealed = ChaCha20Poly1305(acc.key).encrypt(struct.pack("<4xQ", acc.gsn), struct.pack("<HH", acc.gsn, iid) + raw, acc.adv_id)
+    data = bytes([0x11, 0x36]) + acc.adv_id + sealed[:12] + sealed[12:16]
+    a = MagicMock()
+    a.manufacturer_data = {76: data}
+    a.rssi = -50
+    d = MagicMock()
+    d.name = "dev"
+    d.address = did.upper()
+    return d, a
+
+
 class MdnsInfo:
-    def __init__(self, did, cn, type_, addr, port):
+    def __init__(self, did, cn, type_, addr, port, sn=1):
         import ipaddress
         self.name = "dev" + did[-2:] + "." + type_
         self.type = type_
         self.port = port
         self._addrs = [ipaddress.ip_address(addr)]
-        self.decoded_properties = {"id": did, "c#": str(cn), "s#": "1", "sf": "0", "ff": "0", "ci": "5", "md": "m"}
+        self.decoded_properties = {"id": did, "c#": str(cn), "s#": str(sn), "sf": "0", "ff": "0", "ci": "5", "md": "m"}
 
     def ip_addresses_by_version(self, v):
         return list(self._addrs)
@@ -747,6 +1008,10 @@ def cache_trial(out, loop, tmpdir, dbs, case):
     init = case["init"]
     other_entry = None
     name0, db0 = dbs[rng.randrange(len(dbs))]
+    if case.get("radio") == "in-range":
+        # a database a HAP-BLE accessory can have (16 bit instance ids, the protocol-information service)
+        pool = ble_flavoured(dbs) or [(name0, db0)]
+        name0, db0 = pool[rng.randrange(len(pool))]
     ser0 = Accessories.from_list(copy.deepcopy(db0)).serialize()
     if init == "zero":
         path.write_bytes(b"")
@@ -768,10 +1033,33 @@ def cache_trial(out, loop, tmpdir, dbs, case):
         exp["known"] = {"config_num": 1, "state_num": None, "broadcast_key": None, "skeleton": db_skeleton(db0)}
     restore = quiet_logs()
     tname = {"IP": "IP", "CoAP": "COAP", "BLE": "BLE"}[transport]
+    own_loop = loop is None
+    if own_loop:
+        # a loop of its own with virtual time: timers of the library (retry back-off, notification debounce) cost nothing,
+        # and closing it is the end of everything the process lives of this trial left behind
+        loop = VLoop()
+    virtual = isinstance(loop, VLoop)
+    for name, db in ble_flavoured(dbs):
+        dbmap[name] = db
+    teardown = case.get("teardown", "legacy")
+    served = {}  # what the radio stand-in was asked for (evidence of the library paths that were reached)
+    the_accessory = BleAccessory(rng, pd) if transport == "BLE" else None  # it lives on while the controller's process restarts
 
     async def settle():
-        for _ in range(12):
-            await asyncio.sleep(0)
+        if virtual:
+            await asyncio.sleep(3.0)
+        else:
+            for _ in range(12):
+                await asyncio.sleep(0)
+
+    async def process_dies():
+        """nothing of a dead process runs on: its tasks are gone"""
+        me = asyncio.current_task()
+        rest = [t for t in asyncio.all_tasks() if t is not me and not t.done()]
+        for t in rest:
+            t.cancel()
+        if rest:
+            await asyncio.gather(*rest, return_exceptions=True)
 
     async def life(n, ops):
         step = f"life {n}"
@@ -780,7 +1068,8 @@ def cache_trial(out, loop, tmpdir, dbs, case):
         except Exception as e:  # noqa: BLE001
             out.violation("cache/start-up-raises", f"{step}: CharacteristicCacheFile on a cache file in state '{init if n == 1 else 'written by the previous life'}' raised {type(e).__name__}: {str(e)[:80]}", case)
             return False
-        async with process_life(case["how"], cache) as c:
+        radio = Radio(case.get("radio", "out-of-range"), the_accessory, pd) if transport == "BLE" else None
+        async with process_life(case["how"], cache, radio) as c:
             try:
                 pairing = c.load_pairing("alias", copy.deepcopy(pd))
             except Exception as e:  # noqa: BLE001
@@ -816,13 +1105,50 @@ def cache_trial(out, loop, tmpdir, dbs, case):
             if transport in ("IP", "CoAP"):
                 pairing.connection = net
                 pairing._ensure_connected = AsyncMock()
+            acc = radio.acc if radio is not None else None
+            in_range = radio is not None and radio.mode == "in-range"
+            if in_range:
+                radio.attach(pairing)
+                if acc.gsn is None:
+                    acc.gsn = got["state_num"] if got is not None and got["state_num"] else 1
+                if got is not None and not acc.chars:
+                    acc.set_db(pairing.accessories.serialize())
+
+            async def advertise(gsn, cn):
+                backend._device_detected(*ble_adv(pid, gsn, cn))
+                await settle()
+
+            def note_ble(generated_before, shown=None):
+                """the harness's record after a BLE op: the accessory's own counter (or the number a late relay showed) and
+                the key it generated - recorded as 'has to come back' when the live pairing took them over"""
+                k = dict(exp["known"])
+                if pairing.state_num is not None and pairing.state_num in (acc.gsn, shown):
+                    k["state_num"] = pairing.state_num
+                else:
+                    k.pop("state_num", None)
+                exp["known"] = k
+                note_key(generated_before)
+
+            def note_key(generated_before):
+                if acc.served["generate-broadcast-key"] != generated_before:
+                    k = dict(exp["known"])
+                    if acc.key is not None and pairing.broadcast_key == acc.key:
+                        k["broadcast_key"] = acc.key.hex()
+                    else:
+                        k.pop("broadcast_key", None)
+                    exp["known"] = k
+
             for op in ops:
                 kind = op[0]
+                gen0 = acc.served["generate-broadcast-key"] if acc is not None else 0
                 try:
                     if kind == "restore":
                         _, dbn, cn, key, sn = op
                         pairing.restore_accessories_state(copy.deepcopy(dbmap[dbn]), cn, bytes.fromhex(key) if key else None, sn)
                         exp["known"] = {"config_num": cn, "state_num": sn, "broadcast_key": key, "skeleton": db_skeleton(dbmap[dbn])}
+                        if acc is not None:
+                            acc.set_db(dbmap[dbn])
+                            acc.gsn = sn or 1
                     elif kind in ("list", "populate"):
                         net.db = dbmap[op[1]]
                         if kind == "list":
@@ -830,11 +1156,13 @@ def cache_trial(out, loop, tmpdir, dbs, case):
                         else:
                             await pairing.async_populate_accessories_state(force_update=True)
                         exp["known"] = {"skeleton": db_skeleton(dbmap[op[1]])}
-                    elif kind == "mdns":
-                        # the accessory announces a higher configuration number: the pairing fetches the database again
+                    elif kind in ("mdns", "mdnsn"):
+                        # the accessory announces itself over mDNS.  "mdns": a higher configuration number (the pairing fetches the
+                        # database again); "mdnsn": any configuration / state number (higher, the same, lower, rolled over)
                         net.db = dbmap[op[1]]
-                        cn = max(pairing.config_num, 0) + op[2]
-                        info = MdnsInfo(pid, cn, "_hap._tcp.local." if transport == "IP" else "_hap._udp.local.", "192.0.2.1" if transport == "IP" else "2001:db8::1", 1)
+                        cn = max(pairing.config_num, 0) + op[2] if kind == "mdns" else op[2]
+                        info = MdnsInfo(pid, cn, "_hap._tcp.local." if transport == "IP" else "_hap._udp.local.", "192.0.2.1" if transport == "IP" else "2001:db8::1", 1,
+                                        sn=op[3] if kind == "mdnsn" else 1)
                         before = net.fetches
                         backend._async_handle_loaded_service_info(info)
                         await settle()
@@ -845,22 +1173,87 @@ def cache_trial(out, loop, tmpdir, dbs, case):
                         # a BLE advertisement with the current configuration number and a new global state number
                         if pairing.accessories is None:
                             continue
-                        gsn = (pairing.state_num or 0) + op[1]
-                        backend._device_detected(*ble_adv(pid, gsn, pairing.config_num))
-                        await settle()
+                        gsn = ((pairing.state_num or 0) + op[1] - 1) % 65535 + 1
+                        if acc is not None:
+                            acc.gsn = gsn
+                        await advertise(gsn, pairing.config_num % 256)
                         exp["known"] = {**exp["known"], "state_num": gsn}
+                        note_key(gen0)
+                    elif kind == "advn":
+                        # a BLE advertisement with ANY state number (higher, the same, lower = a late relay / a counter that
+                        # restarted, rolled over) and any configuration number (None = the one the pairing holds)
+                        if pairing.accessories is None:
+                            continue
+                        gsn, cn = op[1], op[2]
+                        if cn is None or in_range:
+                            cn = pairing.config_num % 256  # (in range the stand-in accessory never changes its attribute table)
+                        stale = len(op) > 3 and op[3] == "prev"
+                        if not stale:
+                            acc.gsn = gsn
+                        await advertise(gsn, cn)
+                        note_ble(gen0, gsn)  # if the pairing took the advertised number over, that is what has to come back
+                        k = dict(exp["known"])
+                        if cn != k.get("config_num"):
+                            k.pop("config_num", None)  # a changed c# with the accessory unreachable: which c# the pairing goes on with is not the harness's call
+                        exp["known"] = k
+                    elif kind == "bcast" and in_range and pairing.accessories is not None:
+                        # an encrypted broadcast notification (HAP-BLE 7.4.7.2): only an accessory that generated a broadcast key
+                        # and has no link sends one; its counter moves on (once per disconnected period)
+                        bc = sorted(i for i, ch in acc.chars.items() if ch.get("broadcast_events") and "pr" in ch.get("perms", []) and ch.get("format") in ("bool", "uint8", "uint16", "uint32", "int", "float"))
+                        if acc.key is None or radio.link is not None or not bc:
+                            continue
+                        if not getattr(acc, "bcast_since_link", False):
+                            acc.bcast_since_link = True
+                            acc.gsn = gsn_succ(acc.gsn)
+                        iid = bc[rng.randrange(len(bc))]
+                        backend._device_detected(*ble_encrypted_notification(pid, acc, iid))
+                        acc.served["broadcast-notification"] += 1
+                        await settle()
+                        note_ble(gen0)
+                    elif kind in ("poll", "subscribe", "event", "drop") and in_range and pairing.accessories is not None:
+                        if kind != "drop":
+                            await advertise(acc.gsn, pairing.config_num % 256)  # the accessory advertises periodically: it has been seen before anything connects
+                        if kind == "poll" and op[1] == "list":
+                            await pairing.list_accessories_and_characteristics()
+                        elif kind == "poll":
+                            await pairing.async_populate_accessories_state(force_update=bool(op[1]))
+                        elif kind == "subscribe":
+                            evs = sorted(i for i, ch in acc.chars.items() if "ev" in ch.get("perms", []) and "pr" in ch.get("perms", []) and ch.get("format") in ("bool", "uint8", "uint16", "uint32", "int", "float"))
+                            if evs:
+                                await pairing.subscribe({(1, i) for i in rng.sample(evs, min(len(evs), op[1]))})
+                        elif kind == "event":
+                            link = radio.link
+                            if link is not None and link.notify:
+                                if not getattr(link, "had_event", False):
+                                    link.had_event = True
+                                    acc.gsn = gsn_succ(acc.gsn)  # the counter moves once per connected session
+                                handle, cb = link.notify[sorted(link.notify)[rng.randrange(len(link.notify))]]
+                                cb(handle, bytearray())
+                                acc.served["event-delivered"] += 1
+                        elif kind == "drop" and radio.link is not None:
+                            radio.link.drop()
+                        await settle()
+                        note_ble(gen0)
                 except Exception as e:  # noqa: BLE001
                     out.violation("cache/update-raises", f"{step}: {transport} pairing, op {op[:2]} raised {type(e).__name__}: {str(e)[:100]}", case)
                     return False
-            exp["view"] = view_of(pairing) if ops else (got if got is not None else exp["view"])
-            if ops and exp["view"] is None:
-                # nothing was populated (cannot happen with the op lists generated here)
-                return False
+            if teardown == "legacy":
+                exp["view"] = view_of(pairing) if ops else (got if got is not None else exp["view"])
             try:
-                if transport in ("IP", "CoAP"):
+                if teardown == "shutdown" or (teardown == "legacy" and transport in ("IP", "CoAP")):
                     await pairing.shutdown()
             except Exception:  # noqa: BLE001
                 pass
+            await process_dies()
+            if teardown != "legacy":
+                # what the pairing held in memory when the process ended
+                exp["view"] = view_of(pairing) if ops else (got if got is not None else exp["view"])
+            if acc is not None:
+                served.update(acc.served)
+                served["connection-attempts"] = served.get("connection-attempts", 0) + radio.attempts
+            if ops and exp["view"] is None:
+                # nothing was populated (cannot happen with the op lists generated here)
+                return False
         # the entry of ANOTHER pairing that was in the file must still be there (read by an independent parser)
         if other_entry is not None:
             try:
@@ -884,6 +1277,9 @@ def cache_trial(out, loop, tmpdir, dbs, case):
         out.violation("cache/life-raises", f"a process life around the cache file (initially '{init}') raised {type(e).__name__}: {str(e)[:100]}", case)
     finally:
         restore()
+        if own_loop:
+            loop.close()
+    return served
 
 
 def rand_ops(rng, transport, dbnames, first):
@@ -937,6 +1333,208 @@ def toplevel_cache(ctx, rng, loop, tmpdir):
         for life in ops:
             for o in life:
                 ctx.dist[f"toplevel-cache:op:{t}:{o[0]}"] += 1
+        for sig, what, c in out.found[:2]:
+            ctx.violation(sig, what, c)
+        if i == 0:
+            ctx.sample(case)
+
+
+# ---- histories of the numbers: state / configuration numbers that move in every direction, keys set / replaced / cleared ------
+
+SN_EDGES = (1, 2, 3, 255, 256, 32767, 32768, 65533, 65534, 65535)
+CN_EDGES = {"BLE": (1, 2, 3, 127, 128, 253, 254, 255), "IP": (1, 2, 3, 255, 256, 65533, 65534, 65535), "CoAP": (1, 2, 3, 255, 256, 65533, 65534, 65535)}
+NUMBER_MODES = (("next", 35), ("same", 10), ("prev", 15), ("jump", 15), ("restarted", 10), ("edge", 15))
+
+
+def ble_flavoured(dbs):
+    """the databases of accessories that speak HAP-BLE (they carry the protocol-information service with its service
+    signature characteristic), the way the GATT database fetch leaves them: event characteristics marked for
+    broadcast / disconnected events"""
+    from aiohomekit.uuid import normalize_uuid
+    a2, a5 = normalize_uuid("A2"), normalize_uuid("A5")
+    out = []
+    for name, db in dbs:
+        try:
+            first = [a for a in db if a.get("aid") == 1]
+            if not first or not any(normalize_uuid(sv["type"]) == a2 and any(normalize_uuid(ch["type"]) == a5 for ch in sv["characteristics"]) for sv in first[0]["services"]):
+                continue
+        except Exception:  # noqa: BLE001
+            continue
+        db2 = copy.deepcopy(db)
+        for a in db2:
+            for sv in a["services"]:
+                for ch in sv["characteristics"]:
+                    if "ev" in ch.get("perms", []):
+                        ch["broadcast_events"] = True
+                        ch["disconnected_events"] = True
+        out.append(("ble:" + name, db2))
+    return out
+
+
+def next_number(rng, cur, top, edges):
+    """(how, number): the way a counter an accessory shows moves on from `cur` - the successor (top rolls over to 1), the
+    same number again, the predecessor (a late relay of an older advertisement), a jump ahead (wrapping), a counter that
+    restarted (accessory reset), a number next to a boundary"""
+    how = rng.choices([m for m, _ in NUMBER_MODES], [w for _, w in NUMBER_MODES])[0]
+    edges = [e for e in edges if e <= top]
+    if cur is None or not 1 <= cur <= top:
+        cur = rng.choice(edges)
+    if how == "next":
+        n = gsn_succ(cur, top)
+    elif how == "same":
+        n = cur
+    elif how == "prev":
+        n = cur - 1 if cur > 1 else top
+    elif how == "jump":
+        n = (cur + rng.randrange(2, 4000) - 1) % top + 1
+    elif how == "restarted":
+        n = rng.choice([1, 1, 2, 3])
+    else:
+        n = rng.choice(edges)
+    return how, n
+
+
+def number_ops(rng, transport, radio, names, blenames, st, need_db):
+    """one life's history for the 'cache-numbers' stream; `st` is the generator's own idea of the numbers shown last"""
+    key = lambda: rng.choice([None, "%064x" % rng.getrandbits(256)])  # noqa: E731
+    pick_sn = lambda: rng.choice([None] + list(SN_EDGES) * 2 + [rng.randrange(1, 65536) for _ in range(6)])  # noqa: E731
+    ops = []
+    st.update(sub=False, conn=False, tried=False)  # a new process
+    for j in range(rng.choice([1, 2, 3, 3, 4, 5, 6])):
+        r = rng.random()
+        if transport == "BLE":
+            if (need_db and j == 0) or (j == 0 and r < 0.25) or (radio != "in-range" and r < 0.12):
+                cn = rng.choice(CN_EDGES["BLE"]) if rng.random() < 0.5 else rng.randrange(1, 256)
+                sn = pick_sn()
+                dbn = rng.choice(blenames) if blenames and (radio == "in-range" or rng.random() < 0.5) else rng.choice(names)
+                ops.append(["restore", dbn, cn, key(), sn])
+                st.update(sn=sn, cn=cn)
+            elif radio == "in-range" and r < 0.55:
+                # (the generator's guess of the link's state only steers the mix: events are worth most on a live, subscribed link)
+                if st.get("sub") and st.get("conn"):
+                    kinds = ["event"] * 5 + ["poll", "subscribe", "drop"]
+                elif st.get("sub"):
+                    kinds = ["poll"] * 4 + ["subscribe", "event", "drop"] + (["bcast"] * 4 if st.get("key") else [])
+                else:
+                    kinds = ["subscribe"] * 3 + ["poll"] * 2 + ["event", "drop"] + (["bcast"] * 2 if st.get("key") and not st.get("conn") else [])
+                kind = rng.choice(kinds)
+                ops.append({"poll": ["poll", rng.choice([False, False, True, True, "list"])], "subscribe": ["subscribe", rng.choice([1, 2, 3])], "event": ["event"], "drop": ["drop"], "bcast": ["bcast"]}[kind])
+                if kind == "poll":
+                    st.update(conn=True, tried=True, key=st.get("key") or st["sub"])
+                elif kind == "subscribe":
+                    st.update(sub=True, key=st.get("key") or st["conn"])
+                elif kind == "drop":
+                    st["conn"] = False
+            elif r < 0.62:
+                d = rng.randrange(1, 5)
+                ops.append(["adv", d])
+                st["sn"] = ((st["sn"] or 0) + d - 1) % 65535 + 1
+                st["conn"] = st["conn"] or st["tried"]
+            else:
+                how, gsn = next_number(rng, st["sn"], 65535, SN_EDGES)
+                chow, cn = "held", None
+                if radio != "in-range" and rng.random() < 0.3:
+                    chow, cn = next_number(rng, st["cn"], 255, CN_EDGES["BLE"])
+                    st["cn"] = cn
+                ops.append(["advn", gsn, cn, how, chow])
+                st["sn"] = gsn
+                st["conn"] = st["conn"] or st["tried"]
+        else:
+            if r < 0.2:
+                cn = rng.choice(CN_EDGES[transport]) if rng.random() < 0.5 else rng.randrange(1, 65536)
+                sn = pick_sn()
+                ops.append(["restore", rng.choice(names), cn, key(), sn])
+                st.update(sn=sn, cn=cn)
+            elif r < 0.3:
+                ops.append(["list", rng.choice(names)])
+            elif r < 0.4:
+                ops.append(["populate", rng.choice(names)])
+            elif r < 0.5:
+                ops.append(["mdns", rng.choice(names), rng.randrange(1, 4)])
+            else:
+                chow, cn = next_number(rng, st["cn"], 65535, CN_EDGES[transport])
+                show, sn = next_number(rng, st["sn"], 65535, SN_EDGES)
+                ops.append(["mdnsn", rng.choice(names), cn, sn, chow, show])
+                st.update(sn=sn, cn=cn)
+    return ops
+
+
+def directed_number_histories(names, blenames):
+    """the classes the property's 'state and configuration numbers' clause spans, once each whatever the seed: roll-over,
+    a lower number (late relay, restarted counter), the same number, both numbers at once, keys set / cleared / replaced,
+    the change in a later life than the database"""
+    b = (blenames or names)[0]
+    n0, n1 = names[0], names[-1]
+    k1, k2 = "5a" * 32, "c3" * 32
+    out = []
+    if HAVE["BLE"]:
+        o = "out-of-range"
+        out += [
+            ("none", "BLE", o, [[["restore", b, 4, k1, 65533], ["advn", 65534, None, "next", "held"], ["advn", 65535, None, "next", "held"], ["advn", 1, None, "next", "held"]]]),
+            ("none", "BLE", o, [[["restore", b, 7, None, 500], ["advn", 499, None, "prev", "held"]]]),
+            ("warm-other", "BLE", o, [[["restore", b, 7, k1, 40000], ["advn", 3, None, "restarted", "held"]]]),
+            ("none", "BLE", o, [[["restore", b, 255, k1, 65535]], [["advn", 1, 1, "next", "next"]]]),
+            ("warm-same", "BLE", o, [[["advn", 7, None, "edge", "held"], ["advn", 7, None, "same", "held"], ["advn", 6, None, "prev", "held"]]]),
+            ("none", "BLE", o, [[["restore", b, 254, None, 10], ["advn", 11, 255, "next", "next"], ["advn", 12, 1, "next", "next"], ["advn", 12, 1, "same", "same"], ["advn", 11, 1, "prev", "same"]]]),
+            ("none", "BLE", o, [[["restore", b, 9, k1, 5], ["restore", b, 9, None, 5], ["advn", 6, None, "next", "held"]], [["restore", b, 9, k2, 6], ["advn", 5, None, "prev", "held"]]]),
+            ("none", "BLE", "in-range", [[["restore", b, 4, None, 65533], ["poll", False], ["subscribe", 2], ["event"], ["advn", 65535, None, "next", "held"], ["drop"], ["poll", True], ["advn", 1, None, "next", "held"]]]),
+            ("warm-other", "BLE", "in-range", [[["restore", b, 4, k1, 65534], ["subscribe", 1], ["poll", False], ["event"], ["event"]], [["advn", 2, None, "restarted", "held"], ["poll", True]]]),
+            ("none", "BLE", "in-range", [[["restore", b, 3, None, None], ["poll", True], ["subscribe", 3], ["drop"], ["advn", 9, None, "edge", "held"], ["advn", 8, None, "prev", "held"]]]),
+            ("none", "BLE", "in-range", [[["restore", b, 6, None, 65534], ["subscribe", 2], ["poll", False], ["drop"], ["bcast"], ["bcast"], ["advn", 65535, None, "same", "held"]], [["bcast"], ["advn", 1, None, "next", "held"]]]),
+        ]
+    for t in ("IP", "CoAP"):
+        if HAVE[t]:
+            out += [
+                ("none", t, None, [[["restore", n0, 65534, None, None], ["mdnsn", n1, 65535, 1, "next", "same"], ["mdnsn", n0, 1, 1, "next", "same"]]]),
+                ("warm-same", t, None, [[["restore", n0, 9, k1, 77], ["mdnsn", n1, 9, 78, "same", "next"], ["mdnsn", n1, 8, 78, "prev", "same"], ["mdnsn", n0, 10, 65535, "next", "edge"]],
+                                        [["mdnsn", n0, 10, 1, "same", "next"], ["mdnsn", n1, 3, 2, "restarted", "next"]]]),
+            ]
+    return out
+
+
+def cache_numbers(ctx, rng, tmpdir):
+    """stream 'cache-numbers': see RULE"""
+    dbs = accessory_dbs()
+    if not dbs:
+        return
+    names = [n for n, _ in dbs]
+    blenames = [n for n, _ in ble_flavoured(dbs)]
+    transports = [t for t in ("BLE", "BLE", "BLE", "IP", "CoAP") if HAVE[t]]
+    plan = []
+    for i, (init, t, radio, ops) in enumerate(directed_number_histories(names, blenames)):
+        if radio == "in-range" and not blenames:
+            continue
+        plan.append((init, t, "toplevel" if i % 3 else "backend:" + t, radio, ("shutdown", "kill")[i % 2], ops))
+    for _ in range(ctx.budget(70, 1500)):
+        t = rng.choice(transports)
+        init = rng.choice(["none", "none", "warm-other", "warm-same", "warm-same", rng.choice(CACHE_INITS)])
+        radio = rng.choice(["out-of-range", "in-range"] if blenames else ["out-of-range"]) if t == "BLE" else None
+        st = {"sn": None, "cn": 1 if init == "warm-same" else None}
+        ops = [number_ops(rng, t, radio, names, blenames, st, need_db=(k == 0 and t == "BLE" and init != "warm-same")) for k in range(rng.choice([1, 1, 2, 2, 3]))]
+        plan.append((init, t, rng.choice(["toplevel", "toplevel", "backend:" + t]), radio, rng.choice(["shutdown", "kill"]), ops))
+    for i, (init, t, how, radio, teardown, ops) in enumerate(plan):
+        pd = rand_pairing(rng, (i % 250) + 1, t)
+        if t == "BLE":
+            pd["AccessoryPairingID"] = pd["AccessoryPairingID"].upper()
+        case = {"stream": "cache-numbers", "init": init, "transport": t, "how": how, "radio": radio, "teardown": teardown, "pairing": pd, "ops": ops, "seed": rng.getrandbits(32)}
+        out = Collector()
+        served = cache_trial(out, None, tmpdir, dbs, case) or {}
+        ctx.evaluations += len(ops) + 1
+        ctx.nontrivial.add(("cache-numbers", init, t, how, radio, teardown, tuple(tuple(":".join([o[0]] + [str(x) for x in o[3:] if o[0] == "advn"] + [str(x) for x in o[4:] if o[0] == "mdnsn"]) for o in life) for life in ops)))
+        ctx.dist[f"cache-numbers:{t}" + (":" + radio if radio else "")] += 1
+        ctx.dist["cache-numbers:teardown:" + teardown] += 1
+        ctx.dist["cache-numbers:lives:%d" % len(ops)] += 1
+        for life in ops:
+            for o in life:
+                ctx.dist[f"cache-numbers:op:{t}:{o[0]}"] += 1
+                if o[0] == "advn":
+                    ctx.dist["cache-numbers:s#:" + o[3]] += 1
+                    ctx.dist["cache-numbers:c#:" + o[4]] += 1
+                elif o[0] == "mdnsn":
+                    ctx.dist["cache-numbers:c#:" + o[4]] += 1
+                    ctx.dist["cache-numbers:s#:" + o[5]] += 1
+        for k, v in served.items():
+            ctx.dist["cache-numbers:radio:" + k] += v
         for sig, what, c in out.found[:2]:
             ctx.violation(sig, what, c)
         if i == 0:
@@ -1029,7 +1627,12 @@ def cache_histories(ctx, rng, tmpdir):
                     # only ONE thing changes: the state number advances, the key is regenerated, or the configuration number moves
                     new = dict(prev)
                     what = rng.choice(["state_num", "state_num", "broadcast_key", "config_num"])
-                    new[what] = {"state_num": (prev["state_num"] or 0) + rng.randrange(1, 4), "broadcast_key": "%064x" % rng.getrandbits(256), "config_num": prev["config_num"] + 1}[what]
+                    if rng.random() < 0.5:
+                        new[what] = {"state_num": (prev["state_num"] or 0) + rng.randrange(1, 4), "broadcast_key": "%064x" % rng.getrandbits(256), "config_num": prev["config_num"] + 1}[what]
+                    else:
+                        # ... in any direction: a number that goes down / rolls over / jumps / sits on a boundary, a key that is cleared
+                        new[what] = {"state_num": next_number(rng, prev["state_num"], 65535, SN_EDGES)[1], "broadcast_key": rng.choice([None, "%064x" % rng.getrandbits(256)]),
+                                     "config_num": next_number(rng, prev["config_num"], 65535, CN_EDGES["IP"])[1]}[what]
                 cf.async_create_or_update_map(pid, new["config_num"], new["accessories"], new["broadcast_key"], new["state_num"])
                 live[pid] = new
                 hist.append(f"update({pid}, c#={new['config_num']}, key={'-' if new['broadcast_key'] is None else new['broadcast_key'][:6]}, s#={new['state_num']})")
@@ -1122,7 +1725,7 @@ def replay(ctx, driver, c):
         finally:
             loop.close()
         return [f"{sig}: {what}" for sig, what, _ in out.found] or None
-    if not isinstance(c, dict) or c.get("stream") not in ("toplevel-restart", "toplevel-cache"):
+    if not isinstance(c, dict) or c.get("stream") not in ("toplevel-restart", "toplevel-cache", "cache-numbers"):
         return None
     loop = asyncio.new_event_loop()
     asyncio.set_event_loop(loop)
@@ -1132,7 +1735,7 @@ def replay(ctx, driver, c):
         if c["stream"] == "toplevel-restart":
             restart_trial(out, loop, tmpdir, c)
         else:
-            cache_trial(out, loop, tmpdir, accessory_dbs(), c)
+            cache_trial(out, None if c["stream"] == "cache-numbers" else loop, tmpdir, accessory_dbs(), c)
     finally:
         shutil.rmtree(tmpdir, ignore_errors=True)
         loop.close()
